@@ -95,13 +95,13 @@ func handlePUSH(params x86genParams, ctx *CodeGenContext) ([]byte, error) {
 			return nil, fmt.Errorf("could not get memory info for PUSH operand: %s", opStr)
 		}
 		// Use calculateModRM from x86gen_utils.go, passing regBits for the /6 extension
-		modrmByte, sibByte, dispBytes, err := calculateModRM(memInfo, ctx.BitMode, 6<<3) // Pass regBits = 6 << 3
+		modrmByte, sibByte, hasSIB, dispBytes, err := calculateModRM(memInfo, ctx.BitMode, 6<<3) // Pass regBits = 6 << 3
 		if err != nil {
 			return nil, fmt.Errorf("failed to calculate ModRM/SIB/Disp for PUSH %s: %w", opStr, err)
 		}
 		code = append(code, 0xFF) // Append opcode after prefixes
 		code = append(code, modrmByte)
-		if sibByte != 0 {
+		if hasSIB {
 			code = append(code, sibByte)
 		}
 		code = append(code, dispBytes...)
@@ -223,13 +223,13 @@ func handlePOP(params x86genParams, ctx *CodeGenContext) ([]byte, error) {
 			return nil, fmt.Errorf("could not get memory info for POP operand: %s", opStr)
 		}
 		// Use calculateModRM from x86gen_utils.go, passing regBits for the /0 extension
-		modrmByte, sibByte, dispBytes, err := calculateModRM(memInfo, ctx.BitMode, 0<<3) // Pass regBits = 0 << 3
+		modrmByte, sibByte, hasSIB, dispBytes, err := calculateModRM(memInfo, ctx.BitMode, 0<<3) // Pass regBits = 0 << 3
 		if err != nil {
 			return nil, fmt.Errorf("failed to calculate ModRM/SIB/Disp for POP %s: %w", opStr, err)
 		}
 		code = append(code, 0x8F) // Append opcode after prefixes
 		code = append(code, modrmByte)
-		if sibByte != 0 {
+		if hasSIB {
 			code = append(code, sibByte)
 		}
 		code = append(code, dispBytes...)
